@@ -220,9 +220,9 @@ properties/C14.vos properties/C14.vok properties/C14.required_vos: properties/C1
 model/CheckApi.vo model/CheckApi.glob model/CheckApi.v.beautified model/CheckApi.required_vo: model/CheckApi.v model/Bytes.vo
 model/CheckApi.vio: model/CheckApi.v model/Bytes.vio
 model/CheckApi.vos model/CheckApi.vok model/CheckApi.required_vos: model/CheckApi.v model/Bytes.vos
-model/Rtt.vo model/Rtt.glob model/Rtt.v.beautified model/Rtt.required_vo: model/Rtt.v 
-model/Rtt.vio: model/Rtt.v 
-model/Rtt.vos model/Rtt.vok model/Rtt.required_vos: model/Rtt.v 
+model/Rtt.vo model/Rtt.glob model/Rtt.v.beautified model/Rtt.required_vo: model/Rtt.v gen/Params.vo
+model/Rtt.vio: model/Rtt.v gen/Params.vio
+model/Rtt.vos model/Rtt.vok model/Rtt.required_vos: model/Rtt.v gen/Params.vos
 model/CheckRtt.vo model/CheckRtt.glob model/CheckRtt.v.beautified model/CheckRtt.required_vo: model/CheckRtt.v model/Rtt.vo
 model/CheckRtt.vio: model/CheckRtt.v model/Rtt.vio
 model/CheckRtt.vos model/CheckRtt.vok model/CheckRtt.required_vos: model/CheckRtt.v model/Rtt.vos
